@@ -16,7 +16,8 @@ FUNCTIONS = [f"StridedInterval.{n}" for n in JOINS + MEETS + ["eval", "min", "ma
 TRUSTED = ["z3 4.13", "CPython 3.12", "contract of math.gcd/lcm", "contract of _minimal_common_integer_splitted (rational Diophantine solver; checked bounded: exhaustively up to width 4, directed random at 16..64 bits)"]
 ASSUMPTIONS = ["widths 1-4 (quick 1-3); each width complete in values", "non-reversed, initialised, non-empty operands"]
 R = "vf.contracts.si:replay_c22"
-RULE = ("bounded helper check (never counted as proved): the assumed contract of _minimal_common_integer_splitted against brute force for every pair of "
+RULE = ("bounded (never counted as proved): union / widen / intersection on EVERY pair and eval / min / max / cardinality / solution on EVERY well-formed strided "
+        "interval of widths 1-3 natively, the failing inputs of the unchanged tree listed one by one in vf/contracts/si_known_cases.json.gz; and the helper check: the assumed contract of _minimal_common_integer_splitted against brute force for every pair of "
         "non-wrapping intervals up to the stated width, and against an exact scan for directed random pairs at 16..64 bits with bounds near 2^w; "
         "nontrivial = both non-constant")
 
@@ -41,6 +42,8 @@ def _tasks(tier, seed=0):
             out.append(task(M, "ob_meet", f"si.{op}/gamma@w{w}", ["C22"], replay=R, op=op, w=w, tier=tier))
         for q in QUERIES:
             out.append(task(M, "ob_query", f"si.{q}/exact@w{w}", ["C22"], replay=R, q=q, w=w, tier=tier))
+    from vf.props import C21 as _C21
+    out += _C21.pairs_tasks(tier, "C22", ["union", "widen", "intersection", "eval", "min", "max", "cardinality", "solution"])
     # the assumed contract of the Diophantine helper, bounded: exhaustively at small widths (also run by C21) and directed-random at 16..64 bits
     out.append(task("vf.bounded.si_enum", "mci", "si._minimal_common_integer_splitted/contract-bounded", ["C21", "C22"], kind="bounded",
                     replay="vf.bounded.si_enum:replay_mci", wmax=4 if tier == "quick" else 5, budget_s=100 if tier == "quick" else 1500))
